@@ -1,5 +1,6 @@
 import TwistedModel.Irc.Split
 import TwistedModel.Irc.Ctcp
+import TwistedModel.Irc.History
 /-!
 Driver glue for C43.  Text: code points in decimal joined by `,` (`-` = empty; surrogates are
 not text).  Octets: lower-case hex (`-` = empty).
@@ -22,6 +23,12 @@ not text).  Octets: lower-case hex (`-` = empty).
   `C43 e2e q|r <user> <msgs> <nicklen> <table>`
                                     → `<lines written by ctcpMakeQuery/ctcpMakeReply>|<calls made by the peer fed those lines>` | `!raised ValueError`
 
+  `C43 hist <rate 0|1> <steps> <table>`
+                                    → one client, the calls `<steps>` in order (`lineRate` set when rate = 1), the timer drained at
+                                      the end: per step, joined by `/`, the written lines that step's `sendLine` calls account for
+                                      (as `send`) | `!raised ValueError`.  `<steps>`: joined by `;`, each
+                                      `<msg|notice|say>/<user>/<message>/<length|none>/<NICKLEN in force>/<timer firings after the call>`
+
 `<msgs>`: `~` (none) or messages joined by `;`, each `<tag>/n` (data None), `<tag>/t/<text>` (str), `<tag>/l/<text>:<text>…` (list; `~` = `[]`).
 `<normals>`: texts joined by `;` (one more than messages).  `<extended>`: `~` or `<tag>/N` | `<tag>/T<text>` joined by `;`.
 `<normal>`: `~` or texts joined by `;`.  Calls: `~` or `Q:<extended>`, `R:<extended>`, `P:<text>`, `N:<text>` joined by `+`.
@@ -35,6 +42,7 @@ tab/LF/VT/FF/CR that does not end in whitespace is returned whole) → `!wrap-co
 namespace Twisted.Drv.C43
 open Twisted.Irc.Split
 open Twisted.Irc.Ctcp
+open Twisted.Irc.History
 
 def decText (s : String) : Option Text :=
   if s = "-" then some [] else
@@ -137,8 +145,39 @@ def mixedText : List Text → List (Text × Data) → Option Text
   | n0 :: ns, m :: ms => (mixedText ns ms).map fun r => n0 ++ ctcpStringify [m] ++ r
   | _, _ => none
 
+def decStep (s : String) : Option Step :=
+  match s.splitOn "/" with
+  | [k, user, msg, len, nick, fires] => do
+    let kind ← if k = "msg" then some Kind.msg else if k = "notice" then some Kind.notice else if k = "say" then some Kind.say else none
+    let user ← decText user
+    let msg ← decText msg
+    let len ← if len = "none" then some none else (decInt len).map some
+    let nick ← nick.toNat?
+    let fires ← fires.toNat?
+    if kind = .say ∧ user.isEmpty then none else pure ⟨kind, user, msg, len, nick, fires⟩
+  | _ => none
+
+/-- per step: the lines of the drained transport its `sendLine` calls account for -/
+def showGroups (wrap : Wrap) : List Step → List (List UInt8) → List String
+  | [], _ => []
+  | s :: ss, written =>
+    match s.lines wrap with
+    | .error .value => "!raised ValueError" :: showGroups wrap ss written
+    | .ok ls => showLines (written.take ls.length) :: showGroups wrap ss (written.drop ls.length)
+
 def handle (args : List String) : String :=
   match args with
+  | ["hist", rate, steps, tbl] =>
+    match (steps.splitOn ";").mapM decStep, decTable tbl with
+    | some steps, some tbl =>
+      if rate ≠ "0" ∧ rate ≠ "1" then "bad-op"
+      else if !tableOk tbl then "!wrap-contract"
+      else if !(steps.all fun s => callsCovered tbl s.message (wrapWidth s.nicklen s.msgType s.target s.length)) then "!no-wrap-entry"
+      else
+        let c := drain (runHistory (tableWrap tbl) (rate = "1") steps)
+        if !c.queue.isEmpty then "!queue-not-drained"
+        else "/".intercalate (showGroups (tableWrap tbl) steps c.written)
+    | _, _ => "bad-op"
   | ["strex", ms] => match decMsgs ms with
     | some ms => encText (ctcpStringify ms) ++ "|" ++ showExtract (ctcpExtract (ctcpStringify ms))
     | none => "bad-op"
